@@ -3,6 +3,7 @@ package c04
 import (
 	"fmt"
 	"math/rand"
+	"os"
 
 	"github.com/attestantio/go-eth2-client/spec/phase0"
 	spectypes "github.com/bloxapp/ssv-spec/types"
@@ -11,6 +12,10 @@ import (
 
 	"verifharness/internal/evid"
 )
+
+// blankFault (opt-in, C04_FAULT_BLANK=1): additionally blank the value of a protection record (a record that
+// exists but cannot be decoded). Not part of the default alphabet: badger does not produce such a record by itself.
+var blankFault = os.Getenv("C04_FAULT_BLANK") == "1"
 
 type histParams struct {
 	nShares      int
@@ -415,7 +420,7 @@ func (r *runner) doSignAtt(sh *share, q attReq) (crashed bool) {
 	}
 	_, _, present := w.rawAtt(sh)
 	w.fdb.mu.Lock()
-	unreadable := w.fdb.readErrAtt
+	unreadable := w.fdb.readErrAtt || w.blank(attPrefix, sh)
 	w.fdb.mu.Unlock()
 	if j, k := attWouldConflict(sh.atts, q.s, q.t, root); j >= 0 {
 		r.res.conflictAttempts++
@@ -501,7 +506,7 @@ func (r *runner) doSignBlk(sh *share, q blkReq) (crashed bool) {
 	}
 	_, present := w.rawProp(sh)
 	w.fdb.mu.Lock()
-	unreadable := w.fdb.readErrPro
+	unreadable := w.fdb.readErrPro || w.blank(propPrefix, sh)
 	w.fdb.mu.Unlock()
 	if j, k := blkWouldConflict(sh.blks, q.slot, root); j >= 0 {
 		r.res.conflictAttempts++
@@ -678,14 +683,17 @@ func runHistory(c *evid.Case, rng *rand.Rand, p histParams) *histResult {
 		if readErrLeft > 0 {
 			wSignA, wSignB = 120, 80
 		}
-		wCrash, wReadErr, wDelete := 0, 0, 0
+		wCrash, wReadErr, wDelete, wBlank := 0, 0, 0, 0
 		if p.randomFaults {
 			wCrash, wReadErr, wDelete = 7, 3, 2
+			if blankFault {
+				wBlank = 3
+			}
 			if !sh.inNode {
-				wDelete = 0
+				wDelete, wBlank = 0, 0
 			}
 		}
-		op := pickW(rng, []int{wSignA, wSignB, 20, wAdd, wRemove, wLiq, wReact, 6, wCrash, wReadErr, wDelete})
+		op := pickW(rng, []int{wSignA, wSignB, 20, wAdd, wRemove, wLiq, wReact, 6, wCrash, wReadErr, wDelete, wBlank})
 		var crashed bool
 		var opName string
 		switch op {
@@ -758,6 +766,17 @@ func runHistory(c *evid.Case, rng *rand.Rand, p histParams) *histResult {
 			c.Count("op_delete_record_behind_back", 1)
 			r.rec("delete-record", sh.idx, []string{"att", "prop", "both"}[which], "")
 			r.life(sh.idx, "record-deleted")
+		case 11:
+			which := rng.Intn(3)
+			if _, _, ok := w.rawAtt(sh); ok && which != 1 {
+				_ = w.inner.Set(w.netPrefix(attPrefix), sh.pk, []byte{})
+			}
+			if _, ok := w.rawProp(sh); ok && which != 0 {
+				_ = w.inner.Set(w.netPrefix(propPrefix), sh.pk, []byte{})
+			}
+			c.Count("op_blank_record", 1)
+			r.rec("blank-record", sh.idx, []string{"att", "prop", "both"}[which], "")
+			r.life(sh.idx, "record-blanked")
 		}
 		if crashed {
 			if !handleCrash(opName, sh) {
